@@ -103,6 +103,9 @@ def run_case(case, sb):
     rel = sb.write_csv("f.csv", records)
     text = common.text_of(prog, rel, case["scan"])
     labels = ["kind:" + case["kind"]]
+    terms = [int(t.split("-")[0]) for t in case["scan"].split("+")] if "+" in case["scan"] else []
+    if terms and terms != sorted(terms):
+        labels.append("unordered-scan-list")
     if records and records[-1] == []:
         labels.append("trailing-blank")
     if any(r == [] for r in records[1:-1]):
